@@ -61,7 +61,92 @@ THEOREMS_DOC = {
 SCOPE = ["S:ota", "fw", "extra"]
 
 
+def reentrant_case(ver, on):
+    """An application that starts the update from INSIDE the event callback (threaded flavour): when node 1 presents
+    itself (`on` = "presentation") or reports a value ("set"), the callback calls gateway.update_fw([1], 1, 1, image).
+    Then: the node's next set message is answered with a reboot request, the presentation after the reboot ends the
+    reboot window, and the session serves the configuration and the first block.  Returns the list of what failed."""
+    import logging
+    import mysensors
+    from mysensors.ota import load_fw  # noqa: F401
+    logging.disable(logging.CRITICAL)
+    sent, armed = [], []
+
+    class Tr:
+        can_log = False
+        protocol = None
+
+        def send(self, message):
+            if message:
+                sent.append(message)
+
+        def connect(self):
+            pass
+
+        def disconnect(self):
+            pass
+
+    image = bytes((i * 5 + 3) & 255 for i in range(48))
+
+    def cb(msg):
+        want = (int(msg.type) == 0 and msg.child_id == 255) if on == "presentation" else int(msg.type) == 1
+        if want and msg.node_id == 1 and not armed:
+            armed.append(1)
+            gw.tasks.ota.make_update([1], 1, 1, image)       # what Tasks.update_fw does once the file is read
+
+    gw = mysensors.BaseSyncGateway(Tr(), protocol_version=ver, event_callback=cb)
+
+    def line(text):
+        n0 = len(sent)
+        gw.tasks.add_job(gw.logic, text)
+        while gw.tasks.queue:
+            gw.tasks.transport.send(gw.tasks.run_job())
+        return sent[n0:]
+
+    bad = []
+    line("1;255;0;0;17;" + ver)
+    line("1;1;0;0;3;light")
+    first = line("1;1;1;0;2;0")
+    if not armed:
+        return ["harness: the callback never started the update"]
+    if on == "set":
+        # armed while this very line was handled: the reply may already be the reboot request; the NEXT one must be
+        first = line("1;1;1;0;2;1")
+    if first != ["1;255;3;0;13;\n"]:
+        bad.append(f"after the update was started from the callback a set message of node 1 was answered with {first}, "
+                   "not with a reboot request")
+    again = line("1;255;0;0;17;" + ver)          # the node reboots and presents itself
+    after = line("1;1;1;0;2;0")
+    if "1;255;3;0;13;\n" in again + after:
+        bad.append(f"reboot requested again after the node presented itself: {again + after}")
+    cfg = line("1;255;4;0;0;010001000300cdab0201")
+    if len(cfg) != 1 or not cfg[0].startswith("1;255;4;0;1;01000100"):
+        bad.append(f"configuration request answered with {cfg}")
+    blk = line("1;255;4;0;2;010001000000")
+    if len(blk) != 1 or not blk[0].lower().startswith("1;255;4;0;3;010001000000" + image[:16].hex()):
+        bad.append(f"request for block 0 answered with {blk}")
+    return bad
+
+
+def run_reentrant(ctx, res):
+    for ver in ("1.4", "1.5", "2.0", "2.2"):
+        for on in ("presentation", "set"):
+            res.evaluations += 1
+            res.count("update-from-callback:" + on)
+            case = {"kind": "update-from-callback", "ver": ver, "on": on}
+            try:
+                bad = reentrant_case(ver, on)
+            except Exception as exc:
+                bad = [f"{type(exc).__name__}: {exc}"]
+            if bad:
+                res.violate("update-from-callback/" + on, f"version {ver}, update started from the event callback of a "
+                            f"{on}: {bad[0]}", case)
+            else:
+                res.nontriv(("update-from-callback", ver, on))
+
+
 def run(ctx, res):
+    run_reentrant(ctx, res)
     n = ctx.budget(300, 6000)
     nd = n * 7 // 10
     # six short directed histories first: gwcheck re-evaluates the first six sessions inside Coq (vm_compute), which is slow
@@ -91,4 +176,8 @@ def run(ctx, res):
 
 
 def replay(ctx, case):
+    c0 = case.get("case", case)
+    if c0.get("kind") == "update-from-callback":
+        bad = reentrant_case(c0["ver"], c0["on"])
+        return {"case": c0, "failed": bad, "violates": bool(bad)}
     return gwcheck.replay_case(ctx, case)
